@@ -149,3 +149,23 @@ Theorem toplevel_scope_does_not_inherit_reads parent x :
   In x (declared (branch_init parent false)) <->
   In x (declared parent) \/ In x (closuredefs parent) \/ In x (locally_declared parent) \/ In x (argument_declared parent).
 Proof. unfold branch_init. cbn [declared]. rewrite !in_app_iff. cbn [In]. tauto. Qed.
+
+(* a traversal never changes what the scope inherited *)
+Lemma fold_visit_declared : forall l st, declared (fold_left (visit_child idents_fuel) l st) = declared st.
+Proof.
+  induction l as [|m r IHl]; intros st; cbn [fold_left]; [reflexivity|].
+  rewrite IHl. unfold visit_child. destruct (visit_ok idents_fuel false m st) as ((G & _) & _). exact G.
+Qed.
+
+(* the defs written inside a <%namespace> tag see the module-level names -- and nothing of the template's body *)
+Theorem namespace_scope_inherits_module_names parent nested body :
+  declared (branch parent nested (TNamespace body)) = declared parent.
+Proof. unfold branch. rewrite fold_visit_declared. reflexivity. Qed.
+
+(* ... and so does each def in it: it is branched from the namespace's scope, not nested *)
+Theorem namespace_def_sees_module_names parent nested body x :
+  In x (declared parent) -> In x (declared (branch_init (branch parent nested (TNamespace body)) false)).
+Proof.
+  intros H. unfold branch_init. cbn [declared]. rewrite namespace_scope_inherits_module_names.
+  apply in_or_app. left. exact H.
+Qed.
